@@ -109,10 +109,13 @@ TABLE: List[Entry] = [
     ("R-SENTINEL", None, None, {"C04", "C16"}),
     # a given of the model dropped / an argument replaced by its default: the model solved is not the model written (C13); what is
     # reported still satisfies the constraints that were posted
+    ("R-CAPACITY", "optimize", "refusal-not-reported", {"C19", "C03"}),
+    ("R-CAPACITY", None, "refusal-not-reported", {"C19", "C02"}),  # an overflow answered as 'no more solutions': not an out-of-bounds matter
     ("R-OPTIONAL-ZERO", None, "element-truthiness", {"C13"}),
     ("R-OPTIONAL-ZERO", None, "given-argument-overwritten", {"C13"}),
     # groundness tested for the variables' domains only: the vector reported is an assignment all the same (C01, C03 unaffected)
     ("R-SOLVED", None, "all-domains", {"C02"}),
+    ("R-SOLVED", None, "wrong-level:root", {"C02", "C03"}),
     ("R-OPTIONAL-ZERO", None, None, {"C01", "C02", "C03", "C13"}),
     # solving a model leaves it as written: reuse (C15), re-optimisation (C03), the rewritten model compared with the original (C13)
     ("R-PROBLEM-READONLY", None, "writes-model-array", {"C01", "C03", "C13", "C15"}),
